@@ -306,6 +306,13 @@ pub fn case(ctx: &mut Ctx, idx: u64) {
         return;
     }
     let n_jobs = if small { 4 } else { 30 + rng.usize_below(50) };
+    // every third case: the taiko / mania jobs carry a seeded lazer Random mod, with only two or three different seeds in
+    // the whole job list (the same seed is needed again while another thread is busy with a different one)
+    let random_heavy = rng.below(3) == 0;
+    let seeds: Vec<f64> = (0..2 + rng.usize_below(2)).map(|_| rng.range(0, 99_999) as f64).collect();
+    if random_heavy {
+        ctx.count("class:random-mod-heavy-job-list");
+    }
     let jobs: Vec<Job> = (0..n_jobs)
         .map(|_| {
             // few maps, many jobs: the same map is worked on by several threads at once
@@ -314,6 +321,10 @@ pub fn case(ctx: &mut Ctx, idx: u64) {
             let mut spec = sets::gen_setspec_wide(&mut rng, mode, &pool[map]);
             if rng.chance(0.2) {
                 spec.passed = Some(rng.below(pool[map].hit_objects.len() as u64 + 2) as u32);
+            }
+            if random_heavy && matches!(mode, GameMode::Taiko | GameMode::Mania) {
+                spec.mods.repr = sets::Repr::Lazer;
+                spec.mods.extra.random = Some(Some(*rng.pick(&seeds)));
             }
             Job {
                 map,
